@@ -51,9 +51,8 @@ EndsLine(k)  == k \in {"lf", "blank", "crlf", "lcom", "trail", "ownlcom", "detac
 HasComment(k) == k \in {"lcom", "trail", "ownlcom", "detach", "bcom", "spbcom", "mlbcom", "eofcom"}
 
 (* kinds offered at an ordinary gap / at the two ends of the file *)
-GapKinds == {"none", "sp", "sp2", "tab", "lf", "lf3", "blank", "crlf", "lcom", "trail", "ownlcom", "detach",
+GapKinds == {"none", "sp", "sp2", "tab", "ff", "lf", "lf3", "blank", "crlf", "lcom", "trail", "ownlcom", "detach",
              "bcom", "spbcom", "mlbcom"}
-CoreKinds == {"none", "sp", "lf", "lf3", "blank", "trail", "ownlcom", "bcom"}
 BOFKinds == {"bom", "lf", "blank", "ownlcom", "detach", "lcom", "bcom", "sp", "crlf"}
 EOFKinds == {"none", "blank", "crlf", "sp", "eofcom", "lcom", "trail", "ownlcom", "detach", "bcom", "mlbcom", "lf3"}
 
